@@ -266,7 +266,7 @@ func genC04(cs *CaseSet, rng *Rng, tier string, dir string) {
 				login := []byte(a.login)
 				pw := append([]byte{}, a.pw...)
 				want := "good"
-				pick := rng.Intn(12)
+				pick := rng.Intn(13)
 				if len(pw) > 72 && rng.Bool() { // an account with an empty stored hash: the empty password must not open it
 					pw = []byte{}
 					want = "bad"
@@ -306,6 +306,22 @@ func genC04(cs *CaseSet, rng *Rng, tier string, dir string) {
 				case 10:
 					login = nil // empty login: the guest account
 					want = "guest"
+				case 12: // a login that is the account's name with path noise: it names no account
+					switch rng.Intn(6) {
+					case 0:
+						login = append([]byte("/"), login...)
+					case 1:
+						login = append(login, '/')
+					case 2:
+						login = append([]byte("./"), login...)
+					case 3:
+						login = append([]byte("x/../"), login...)
+					case 4:
+						login = append(login, '/', '.')
+					default:
+						login = append([]byte("//"), login...)
+					}
+					want = "bad"
 				default:
 					login = bytes.ToUpper(login)
 					want = "case-variant"
